@@ -126,12 +126,22 @@ theorem toPES_conserves (K : ℕ) (dr c : ℝ) (hdr : dr ≠ 0) (hc : c ≠ 0) (
         * ((toPES (fun k => (k : ℝ) * dr) I c (k + 1)).1 - (toPES (fun k => (k : ℝ) * dr) I c k).1)
       = dr * ((if k = 0 then 0 else I k * ((2 * k + 1 : ℝ) / (4 * k))) + I (k + 1) * ((2 * k + 1 : ℝ) / (4 * (k + 1)))) := by
     intro k
-    simp only [toPES]
+    -- on this grid "r ≠ 0" is "k ≠ 0"
+    have hcond : ∀ j : ℕ, (0 < (j : ℝ) * dr ∨ (j : ℝ) * dr < 0) ↔ j ≠ 0 := by
+      intro j
+      constructor
+      · rintro h rfl; simp at h
+      · intro hj
+        have : (j : ℝ) * dr ≠ 0 := mul_ne_zero (by exact_mod_cast hj) hdr
+        rcases lt_or_gt_of_ne this with h | h
+        · exact Or.inr h
+        · exact Or.inl h
+    simp only [toPES, hcond]
     by_cases hk : k = 0
     · subst hk; simp [h0]; field_simp; ring
     · have hk' : (k : ℝ) ≠ 0 := by exact_mod_cast hk
       have hk1 : ((k : ℝ) + 1) ≠ 0 := by positivity
-      simp only [hk, if_false, Nat.add_eq_zero_iff, one_ne_zero, and_false]
+      simp only [hk, ne_eq, not_false_eq_true, if_true, Nat.add_eq_zero_iff, one_ne_zero, and_false]
       push_cast
       field_simp
       ring
